@@ -73,6 +73,15 @@
 //! | map, with and without the other bounds, on arrays and strings; T = that bound: the engine     |
 //! | names the bound itself)       | Rendering | Contains T                                        |
 //!
+//! | int-overflow, arith-overflow, operand-out-of-range (`10 ** 40`, `imax * two`, `imin - one`,   |
+//! | `big * two`, `two * big`, … with `big` = u128::MAX, `imax` / `imin` = the i128 bounds from the  |
+//! | context; nested and multi-line): the engine names the WHOLE failing binary operation (only a   |
+//! | division by zero is reported on the right operand); T = that operation                         |
+//! |                               | Rendering | Contains T                                        |
+//! | end-name-mismatch (`{% block content %}…{% endblock contents %}`, nested blocks, `-` markers,  |
+//! | multi-line tag, `{% endcomponent other %}`; T = the mismatching NAME after the end keyword;    |
+//! | planted only where a block / component definition is allowed)                                  |
+//! |                               | Syntax    | Contains T                                        |
 //! | set-filter-chain (`{% set x | f1 | f2 … %}…{% endset %}`, 2-4 filters, the first / a later   |
 //! | one failing; T = the call of the filter that PRODUCED the refused value — the previous        |
 //! | filter, or the first filter when the captured text itself is refused — and for a missing      |
@@ -225,6 +234,8 @@ struct TSet {
     tpls: Vec<TplB>,
     entry: usize,
     slots: Vec<SlotInfo>,
+    /// slots that sit inside a `for` body (blocks / component definitions are refused there)
+    loop_slots: Vec<usize>,
     units: Vec<Unit>,
     has_comp_q: bool,
 }
@@ -326,6 +337,13 @@ fn context_of(j: &J) -> Context {
             ctx.insert(k.clone(), v);
         }
     }
+    // integers JSON cannot carry: always present (the replay needs no extra field for them)
+    for (k, v) in [("one", 1i64), ("two", 2), ("ten", 10), ("forty", 40)] {
+        ctx.insert_value(k, tera::Value::from(v));
+    }
+    ctx.insert_value("big", tera::Value::from(u128::MAX));
+    ctx.insert_value("imax", tera::Value::from(i128::MAX));
+    ctx.insert_value("imin", tera::Value::from(i128::MIN));
     ctx
 }
 
@@ -362,6 +380,7 @@ struct G<'r> {
     rng: &'r mut Rng,
     crlf: bool,
     slots: Vec<SlotInfo>,
+    loop_slots: Vec<usize>,
     /// a call was wrapped in the body of `wrapq`: the set needs the template defining it
     need_wrap: bool,
 }
@@ -520,6 +539,7 @@ fn region(g: &mut G, out: &mut Vec<Piece>, info: &SlotInfo, calls: &[CallSpec], 
         if in_loop {
             out.push(text("{% for it in arr %}"));
             if g.rng.chance(1, 2) {
+                g.loop_slots.push(g.slots.len());
                 g.slot(out, info.clone(), false, false);
             }
         }
@@ -691,7 +711,7 @@ fn gen_set(rng: &mut Rng) -> TSet {
     let calls_of = |h: Host| -> Vec<CallSpec> { placed.iter().filter(|(x, _)| *x == h).map(|(_, c)| c.clone()).collect() };
 
     let mut tpls: Vec<TplB> = Vec::new();
-    let mut g = G { rng, crlf: false, slots: Vec::new(), need_wrap: false };
+    let mut g = G { rng, crlf: false, slots: Vec::new(), loop_slots: Vec::new(), need_wrap: false };
 
     // ---- root
     let root_idx = 0usize;
@@ -876,7 +896,8 @@ fn gen_set(rng: &mut Rng) -> TSet {
         tpls.push(TplB { name: "wrap.html".to_string(), pieces: vec![text("{% component wrapq() %}<w>{{ body }}</w>{% endcomponent wrapq %}")] });
     }
     let slots = g.slots;
-    TSet { delims: None, route: 0, tpls, entry, slots, units, has_comp_q: has_q }
+    let loop_slots = g.loop_slots;
+    TSet { delims: None, route: 0, tpls, entry, slots, loop_slots, units, has_comp_q: has_q }
 }
 
 // ------------------------------------------------------------------ faults
@@ -938,7 +959,7 @@ fn render_exprs(has_q: bool) -> Vec<(&'static str, &'static str, &'static str, C
         ("bad-operand", "1 +\n\t\"a\"", "\"a\"", Contains, false),
         ("bad-operand", "\"é\ny\" * 2", "\"é\ny\"", Contains, false),
         ("bad-operand", "[1,\n 2]\n - 1", "[1,\n 2]", Contains, false),
-        ("int-overflow", "9223372036854775807 *\n 9223372036854775807 *\n\t9223372036854775807", "9223372036854775807 *\n 9223372036854775807 *\n\t9223372036854775807", Overlaps, false),
+        ("int-overflow", "9223372036854775807 *\n 9223372036854775807 *\n\t9223372036854775807", "9223372036854775807 *\n 9223372036854775807 *\n\t9223372036854775807", Contains, false),
         ("function-error", "throw(\n message=\"boom\"\n)", "throw(\n message=\"boom\"\n)", Contains, false),
         ("bad-operand", "[x * \"a\" for x in arr]", "\"a\"", Contains, false),
         ("undefined-operand", "1 if nosuchvar.x else 2", "nosuchvar", Contains, false),
@@ -946,6 +967,26 @@ fn render_exprs(has_q: bool) -> Vec<(&'static str, &'static str, &'static str, C
         ("bad-index", "arr[::0]", "arr[::0]", Overlaps, false),
         ("bad-index", "n[1:2]", "n[1:2]", Overlaps, false),
         ("div-zero", "{\"k\": 1 / 0, \"é\": 2}", "0", Contains, false),
+        // arithmetic failures other than a division by zero: the engine names the whole failing
+        // binary operation (both operands), never one operand alone
+        ("arith-overflow", "10 ** 40", "10 ** 40", Contains, false),
+        ("arith-overflow", "9223372036854775807 * 9223372036854775807 * 4", "9223372036854775807 * 9223372036854775807 * 4", Contains, false),
+        ("arith-overflow", "1 + (3 ** 90)", "3 ** 90", Contains, false),
+        ("arith-overflow", "[\"é😀\", 2 **\n\t127]", "2 **\n\t127", Contains, false),
+        ("arith-overflow", "0 - 9223372036854775807 * 9223372036854775807 * 2 - 9223372036854775807 * 9223372036854775807 * 2 - 9", "0 - 9223372036854775807 * 9223372036854775807 * 2 - 9223372036854775807 * 9223372036854775807 * 2", Contains, false),
+        ("arith-overflow", "imax * two", "imax * two", Contains, false),
+        ("arith-overflow", "imin - one", "imin - one", Contains, false),
+        ("arith-overflow", "imax - imin", "imax - imin", Contains, false),
+        ("arith-overflow", "imin // (0 - one)", "imin // (0 - one", Overlaps, false),
+        ("arith-overflow", "\"é\" ~ (ten ** forty)", "ten ** forty", Contains, false),
+        ("operand-out-of-range", "big * two", "big * two", Contains, false),
+        ("operand-out-of-range", "two * big", "two * big", Contains, false),
+        ("operand-out-of-range", "big - one", "big - one", Contains, false),
+        ("operand-out-of-range", "one - big", "one - big", Contains, false),
+        ("operand-out-of-range", "big // ten", "big // ten", Contains, false),
+        ("operand-out-of-range", "ten % big", "ten % big", Contains, false),
+        ("operand-out-of-range", "[one, big **\n two]", "big **\n two", Contains, false),
+        ("operand-out-of-range", "one + (big * two) + ten", "big * two", Contains, false),
         // slice bounds of the wrong kind: the engine names the bound itself
         ("bad-slice-bound", "arr[:\"2\"]", "\"2\"", Contains, false),
         ("bad-slice-bound", "arr[1:\"x\"]", "\"x\"", Contains, false),
@@ -985,7 +1026,7 @@ fn render_exprs(has_q: bool) -> Vec<(&'static str, &'static str, &'static str, C
         ("bad-index", "s[\"k\"]", "\"k\"", Contains, false),
         ("bad-index", "arr[\"x\"]", "\"x\"", Contains, false),
         ("bad-index", "m[\"zz\"]", "\"zz\"", Contains, true),
-        ("int-overflow", "9223372036854775807 * 9223372036854775807 * 9223372036854775807", "9223372036854775807 * 9223372036854775807 * 9223372036854775807", Overlaps, false),
+        ("int-overflow", "9223372036854775807 * 9223372036854775807 * 9223372036854775807", "9223372036854775807 * 9223372036854775807 * 9223372036854775807", Contains, false),
         ("test-wrong-kind", "s is divisible_by(divisor=2)", "s", Contains, false),
         ("test-wrong-kind", "n is starting_with(pat=\"x\")", "n", Contains, false),
         ("test-missing-arg", "n is divisible_by", "divisible_by", Contains, false),
@@ -1037,7 +1078,26 @@ fn gen_fault(rng: &mut Rng, set: &TSet, slot: usize, after: &str, forced: Option
     if want_render {
         // (class, text, token range, cover)
         let mut pool: Vec<(&'static str, String, Range<usize>, Cover)> = Vec::new();
+        // inside a component (and what it includes) only the component's parameters exist: the
+        // faults that need the big integers of the context are not offered there
+        let ctx_lost = {
+            let mut u = info.unit;
+            let mut lost = false;
+            loop {
+                if set.units[u].kind == UnitKind::Component {
+                    lost = true;
+                }
+                match set.units[u].caller {
+                    Some(c) => u = c,
+                    None => break,
+                }
+            }
+            lost
+        };
         for (class, e, t, cover, po) in render_exprs(set.has_comp_q) {
+            if ctx_lost && (class == "operand-out-of-range" || ["imax", "imin", "two", "one", "ten", "forty"].iter().any(|w| e.contains(w))) {
+                continue;
+            }
             let po = po || class == "component-bad-call";
             let (txt, off) = wrap_expr(rng, e, po, crlf);
             let tr = find(e, t);
@@ -1193,7 +1253,6 @@ fn gen_fault(rng: &mut Rng, set: &TSet, slot: usize, after: &str, forced: Option
             ("component-def", "{% component cq4(a, ...r, name) %}b{% endcomponent %}".into(), "{% component cq4(a, ...r, name) %}b{% endcomponent %}".into(), Overlaps, Expect::Syntax),
             ("component-def", "{% component cq9(name: string, name: integer) %}{% endcomponent %}".into(), "{% component cq9(name: string, name: integer) %}{% endcomponent %}".into(), Overlaps, Expect::Syntax),
             ("component-def", "{% component cq10() %}First{% endcomponent %}\n{% component cq10() %}Second{% endcomponent %}".into(), "{% component cq10() %}First{% endcomponent %}\n{% component cq10() %}Second{% endcomponent %}".into(), Overlaps, Expect::Syntax),
-            ("component-def", "{% component cq11() %}{% endcomponent hi %}".into(), "{% component cq11() %}{% endcomponent hi %}".into(), Overlaps, Expect::Syntax),
             ("component-def", "{% component cq12() %}{% component cq13() %}{% endcomponent %}{% endcomponent %}".into(), "{% component cq12() %}{% component cq13() %}{% endcomponent %}{% endcomponent %}".into(), Overlaps, Expect::Syntax),
             ("component-def", "{% component cq14 %}{% endcomponent %}".into(), "{% component cq14 %}{% endcomponent %}".into(), Overlaps, Expect::Syntax),
             // reserved names
@@ -1221,13 +1280,35 @@ fn gen_fault(rng: &mut Rng, set: &TSet, slot: usize, after: &str, forced: Option
             ("parser-misc", "{{ {\"a\": 1 }}".into(), "{\"a\": 1 }}".into(), Overlaps, Expect::Syntax),
             ("parser-misc", "{% include \"a\" \"b\" %}".into(), "\"a\" \"b\"".into(), Overlaps, Expect::Syntax),
             ("parser-misc", "{% for k v in m %}{% endfor %}".into(), "for k v in m".into(), Overlaps, Expect::Syntax),
-            ("parser-misc", "{% block zq1 %}{% endblock zq2 %}".into(), "{% block zq1 %}{% endblock zq2 %}".into(), Overlaps, Expect::Syntax),
             ("parser-misc", "{% filter %}x{% endfilter %}".into(), "{% filter %}".into(), Overlaps, Expect::Syntax),
             ("too-deep", nest.clone(), nest.clone(), Overlaps, Expect::Syntax),
             ("parser-misc", "{% block %}".into(), "block %}".into(), Overlaps, Expect::Syntax),
             ("parser-misc", "{{ \"ho\" ~ - \"hey\" }}".into(), "- \"hey\"".into(), Overlaps, Expect::Syntax),
             ("parser-misc", "{{ s ~ (-n) }}".into(), "(-n)".into(), Overlaps, Expect::Syntax),
         ];
+        // the optional name after an end tag differs from the opening one: the NAME is the offender
+        let in_loop = set.loop_slots.contains(&slot);
+        let call_body = info.base_role == "component-call-body";
+        if !in_loop && !call_body && !info.in_comp_def {
+            for (t, n) in [
+                ("{% block content %}x{% endblock contents %}", "contents"),
+                ("{% block content -%}é{%- endblock\n xcontent -%}", "xcontent"),
+                ("{% block zqa %}{% block zqb %}é😀{% endblock zqa %}{% endblock %}", "@zqa"),
+                ("\t{% block zq1 %}{% endblock other %}", "other"),
+                ("{% block zq1 %}{% endblock zq2 %}", "zq2"),
+            ] {
+                v.push(("end-name-mismatch", t.into(), n.into(), Contains, Expect::Syntax));
+            }
+            if !info.in_block {
+                for (t, n) in [
+                    ("{% component cq11() %}{% endcomponent hi %}", "hi"),
+                    ("{% component cq16() %}é{% endcomponent\n\tcq160 %}", "cq160"),
+                    ("{% component ui.cq() %}{% endcomponent ui.dq %}", "dq"),
+                ] {
+                    v.push(("end-name-mismatch", t.into(), n.into(), Contains, Expect::Syntax));
+                }
+            }
+        }
         if !after.contains("#}") {
             v.push(("unterminated-comment", "{# never closed é".into(), "{#".into(), AtOrAfter, Expect::Syntax));
             v.push(("unterminated-comment", "{#- never\nclosed".into(), "{#-".into(), AtOrAfter, Expect::Syntax));
@@ -1260,12 +1341,12 @@ fn all_classes() -> Vec<&'static str> {
         "in-non-container", "spread-non-array", "component-bad-call", "not-iterable", "kv-on-array", "super-misuse", "unexpected-char",
         "unterminated-string", "bad-escape", "unterminated-var", "unterminated-tag", "missing-end-tag", "unknown-tag", "elif-after-else",
         "extends-misplaced", "duplicate-block", "int-literal-too-large", "empty-expr", "missing-operand", "stray-end-tag", "too-deep",
-        "unknown-name", "parser-misc", "unterminated-comment", "unterminated-raw", "component-attr", "component-call-misc", "component-def", "reserved-name", "component-stray-token", "bad-slice-bound", "set-filter-chain",
+        "unknown-name", "parser-misc", "unterminated-comment", "unterminated-raw", "component-attr", "component-call-misc", "component-def", "reserved-name", "component-stray-token", "bad-slice-bound", "set-filter-chain", "arith-overflow", "operand-out-of-range", "end-name-mismatch",
     ]
 }
 
 fn is_render_class(c: &str) -> bool {
-    if c == "bad-slice-bound" || c == "set-filter-chain" {
+    if ["bad-slice-bound", "set-filter-chain", "arith-overflow", "operand-out-of-range"].contains(&c) {
         return true;
     }
     let i = all_classes().iter().position(|x| *x == c).unwrap_or(usize::MAX);
